@@ -25,7 +25,7 @@ import numpy as np
 
 from . import common
 from .common import Ctx, frac
-from .geo_common import disagree as gdisagree, violate as gviolate
+from .geo_common import disagree as gdisagree, violate as gviolate, leancheck, run_corpus
 from .geo_common import (PI, allclose, as_shape, close, fbits, fline, floats, gen_angle, gen_lat, gen_lon, gen_vec,
                          qline, rats, rows_of, ulps, unit_dir, worst)
 
@@ -90,6 +90,7 @@ def np_det(m):
 def run(ctx: Ctx):
     ctx.extra["translated"] = translate()
     ctx.proof = common.prove("C06")
+    leancheck(ctx, "C06")
     ctx.rule = ("axis rotations: angles in [-4pi, 4pi] (multiples of pi/4, near-multiples, tiny, random) x 3 axes x "
                 "scalar/list/(n,) inputs; frames: reference positions at all latitudes incl. exact poles/equator and "
                 "longitudes incl. +-pi on the 7 registered ellipsoids, given in trs or llh, heights -100 km..50 000 km; "
@@ -102,12 +103,28 @@ def run(ctx: Ctx):
                     "NumPy broadcasting over the leading axis modelled as map over rows",
                     "translator/extract_geodesy.py (import of midgard.data.position: registered conversion graph)"]
     ctx.assumptions += ["model inputs are the exact doubles the implementation was given"]
+    run_corpus(ctx, "C06", lambda c: corpus_case(ctx, c))
     check_axis_rotations(ctx)
     check_enu_matrices(ctx)
     check_position_frames(ctx)
     check_acr(ctx)
     check_azel(ctx)
     ctx.traces = ctx.evaluations
+
+
+def corpus_case(ctx, c):
+    *_, ellipsoid, rotation, T = _imp()
+    case = {"fn": "corpus", **c}
+    ctx.case(case)
+    try:
+        if c.get("kind") == "acr":
+            one_acr(ctx, case, c["shape"], [tuple(s) for s in c["states"]], c["delta"])
+        elif c.get("kind") == "frame" and c["ellipsoid"] in ellipsoid._ELLIPSOIDS:
+            E = ellipsoid.get(c["ellipsoid"])
+            trs_rows = [np.asarray(T.llh2trs(np.array(r, dtype=float), E), dtype=float).reshape(-1, 3)[0].tolist() for r in c["ref_llh"]]
+            one_frame(ctx, case, c["ellipsoid"], E, c["shape"], c["ref_sys"], c["ref_llh"], trs_rows, c["delta"], c.get("dvel") or [[0.0, 0.0, 0.0]] * len(trs_rows), bool(c.get("dvel")))
+    except Exception as e:
+        gviolate(ctx, f"raises:corpus:{type(e).__name__}", f"corpus case raised {type(e).__name__}: {e}", case)
 
 
 # --------------------------------------------------------------------------------------------------
@@ -663,10 +680,35 @@ def check_azel(ctx: Ctx):
 
 
 def replay(payload):
+    """re-run the oracle on a stored case against $MIDGARD_REPO; exit code 1 when the violation reproduces"""
     import json
 
     c = payload.get("replay", payload)
-    print(json.dumps(c, indent=1, default=str)[:3000])
+    print(json.dumps(c, indent=1, default=str)[:2500])
     print("key:", payload.get("key"), "| what:", payload.get("what"))
-    print("re-run `VERIF_SEED=%s ./check C06 --tier %s` to reproduce" % (payload.get("seed", 0), payload.get("tier", "quick")))
-    return 0
+    ctx = Ctx("C06", "quick", int(payload.get("seed", 0) or 0))
+    *_, ellipsoid, rotation, T = _imp()
+    fn = c.get("fn")
+    try:
+        if fn == "delta trs<->acr":
+            one_acr(ctx, c, c["shape"], [tuple(x) for x in c["states"]], c["delta"])
+        elif fn == "delta trs<->enu" and c.get("ellipsoid") in ellipsoid._ELLIPSOIDS:
+            six = c.get("dvel") is not None
+            one_frame(ctx, c, c["ellipsoid"], ellipsoid.get(c["ellipsoid"]), c["shape"], c["ref_sys"], c["ref_llh"], c["ref_trs"],
+                      c["delta"], c.get("dvel") or [[0.0, 0.0, 0.0]] * len(c["delta"]), six)
+        elif fn == "corpus":
+            corpus_case(ctx, c)
+        else:
+            print("no dedicated replay for this kind of case: re-run `VERIF_SEED=%s ./check C06 --tier %s`" % (payload.get("seed", 0), payload.get("tier", "quick")))
+            return 0
+    except Exception as e:
+        print("raised", type(e).__name__, e)
+        return 1
+    for v in ctx.violations:
+        print("VIOLATION " + v.key + ": " + v.what)
+    for d in ctx.corr_broken[:5]:
+        print("model/code disagreement:", d["correspondence"])
+    print("verdict:", "violation reproduced" if ctx.violations else "no violation on this tree")
+    if ctx._driver:
+        ctx._driver.close()
+    return 1 if ctx.violations else 0
